@@ -26,7 +26,7 @@ ASSUMPTIONS = [
     "fresh-model comparison uses the exact solver and the same random_state (rtol 1e-9)",
     "rotator results are compared with a fresh rotator on a fresh model while the rotator is current (fitted after the last model fit)",
 ]
-TIERS = {"quick": (8, 20), "thorough": (16, 200)}
+TIERS = {"quick": (8, 32), "thorough": (16, 200)}
 CASE_TIMEOUT = 600
 
 CLASSES = ["EOF", "EOF", "ComplexEOF", "SparsePCA", "POP", "CPCCA", "MCA"]
@@ -34,8 +34,8 @@ OPS = ["fit0", "fit1", "fit2", "transform", "transform", "inverse", "query", "qu
 
 
 @st.composite
-def strategy(draw):
-    cls = draw(st.sampled_from(CLASSES))
+def strategy(draw, cls=None):
+    cls = cls or draw(st.sampled_from(CLASSES))  # (the runner stratifies: every shard runs its slice of CLASSES, one class at a time)
     base = draw(cases.model_case([cls], min_samples=9, max_sd=2, max_fd=2, allow_weights=False, allow_coslat=False))
     other = draw(cases.model_case([cls], min_samples=9, max_sd=2, max_fd=2, allow_weights=False, allow_coslat=False))
     ops = draw(st.lists(st.sampled_from(OPS), min_size=3, max_size=12))
